@@ -3,6 +3,6 @@ EXTENDS JsLinter, Json
 \* the ignore-list calls and lint() only (the user dictionary stays empty)
 JNextIgnoreList == \/ \E t \in Texts, i \in 1..2 : IgnoreLint(t, i)
                    \/ ExportIgnored \/ ClearIgnored \/ ImportIgnored
-                   \/ \E t \in Texts : Lint(t)
+                   \/ \E t \in Texts : Lint(t) \/ LintMd(t)
 EmitCase == nops = MaxOps => PrintT(<<"CASE", ToJson(hist)>>)
 =============================================================================
